@@ -774,7 +774,7 @@ func init() {
 			c.Correspondence("observed close histories (application calls, every datagram / stream segment decoded by harness/wire) accepted by the Lean close model (close-udp / close-tcp) and reader outcome predicted by it")
 			var cases []c03Case
 			cases = append(cases, c03LoadCorpus(c)...)
-			cases = append(cases, genC03(c.Rand, c.Thorough())...)
+			cases = append(cases, genC03(c.Rand, c.Thorough() || c.Search)...) // a broken obligation widens the search
 			for i := 0; i < 3 && i < len(cases); i++ {
 				c.Sample(cases[i])
 			}
